@@ -34,10 +34,11 @@ VARIABLES
   mgate,    \* ERROR updates of task roles park right after their merge (wf.taskrole.merged)
   sgate,    \* ERROR updates of tasks park at the entry of updateTaskState (task.state.update)
   extra,    \* the script family of this behaviour
+  lateMode, \* what the late answer of the task that owed it says: "ok" (done) | "error" (error, state ERROR)
   script,   \* script steps so far
   shape     \* the initial choice, kept for printing
 
-gvars == <<wgate, txgate, owedT, fgate, mgate, sgate, extra, script, shape>>
+gvars == <<wgate, txgate, owedT, fgate, mgate, sgate, extra, lateMode, script, shape>>
 
 \* ---- pipeline under gates, in priority order --------------------------------
 PickMsg == CHOOSE m \in msgs : TRUE
@@ -53,7 +54,8 @@ P1 == msgs # {} /\ (StatusMsg(PickMsg) \/ FailureMsg(PickMsg) \/ DeviceMsg(PickM
 P2 == stq # {} /\ StatusInactive(PickStq)
 P3 == FreeChains # {} /\ (StateToError(PickChain) \/ RolePublish(PickChain) \/ RoleForward(PickChain) \/ RootMerge(PickChain)
                       \/ NotifyDeliver(PickChain) \/ NotifyDrop(PickChain))
-P4 == tx.pc = "sent" /\ Repliers # {} /\ TxReply(PickReply)
+P4 == /\ tx.pc = "sent" /\ Repliers # {} /\ TxReply(PickReply)
+      /\ (PickReply \in late => ((PickReply \in tx'.failed) <=> (lateMode = "error")))
 P5 == ~wgate /\ (WatchSubscribe \/ WatchRecv)
 P6 == WatchLoop \/ WatchRecvBuffered
 P7 == (txgate # "early" /\ TxSend) \/ TxEnter \/ TxFail \/ (txgate # "late" /\ TxRelease)
@@ -89,7 +91,7 @@ G_Fault(k, t) ==
   \* this script step is the update itself; G_FaultRecon is the same status learnt through reconciliation
   /\ \A m \in msgs' \ msgs : m.type = "status" => m.via = "direct"
   /\ Step(<<"fault", k, t>>)
-  /\ UNCHANGED <<wgate, txgate, owedT, fgate, mgate, sgate, extra, shape>>
+  /\ UNCHANGED <<wgate, txgate, owedT, fgate, mgate, sgate, extra, lateMode, shape>>
 
 G_FaultRecon(k, t) ==
   /\ Stable /\ extra = "none" /\ txgate = "none" /\ k \in StatusKinds /\ "recon" \in Vias
@@ -97,7 +99,7 @@ G_FaultRecon(k, t) ==
   /\ \A m \in msgs' \ msgs : m.type = "status" => m.via = "recon"
   /\ late' = late
   /\ Step(<<"fault", k, t, "recon">>)
-  /\ UNCHANGED <<wgate, txgate, owedT, fgate, mgate, sgate, extra, shape>>
+  /\ UNCHANGED <<wgate, txgate, owedT, fgate, mgate, sgate, extra, lateMode, shape>>
 
 \* the racing API transition, parked early (lock acquired, nothing sent) or late (state entered, lock held)
 G_Api(g) ==
@@ -107,7 +109,7 @@ G_Api(g) ==
   /\ ApiAcquire
   /\ txgate' = g
   /\ Step(<<"api", IF envSt = "CONFIGURED" THEN "START" ELSE "STOP", g>>)
-  /\ UNCHANGED <<wgate, owedT, fgate, mgate, sgate, extra, shape>>
+  /\ UNCHANGED <<wgate, owedT, fgate, mgate, sgate, extra, lateMode, shape>>
 
 \* the racing API transition with the answer of task t withheld
 G_ApiOwed(t) ==
@@ -115,12 +117,13 @@ G_ApiOwed(t) ==
   /\ ApiAcquire
   /\ txgate' = "owed" /\ owedT' = t
   /\ Step(<<"api", IF envSt = "CONFIGURED" THEN "START" ELSE "STOP", "owed", t>>)
-  /\ UNCHANGED <<wgate, fgate, mgate, sgate, extra, shape>>
+  /\ UNCHANGED <<wgate, fgate, mgate, sgate, extra, lateMode, shape>>
 
-G_LateReply ==
-  /\ Stable /\ txgate = "owed" /\ NFaults > 0
-  /\ txgate' = "none"
-  /\ Step(<<"latereply", owedT>>)
+G_LateReply(mode) ==
+  /\ Stable /\ txgate = "owed" /\ NFaults > 0 /\ mode \in {"ok", "error"}
+  /\ (mode = "error" => ~alive[owedT])
+  /\ txgate' = "none" /\ lateMode' = mode
+  /\ Step(<<"latereply", owedT, mode>>)
   /\ UNCHANGED vars /\ UNCHANGED <<wgate, owedT, fgate, mgate, sgate, extra, shape>>
 
 G_Stale(t) ==
@@ -128,13 +131,13 @@ G_Stale(t) ==
   /\ (extra = "merge" => mgate)
   /\ StaleUpdate(t)
   /\ Step(<<"stale", t>>)
-  /\ UNCHANGED <<wgate, txgate, owedT, fgate, mgate, sgate, extra, shape>>
+  /\ UNCHANGED <<wgate, txgate, owedT, fgate, mgate, sgate, extra, lateMode, shape>>
 
 G_MasterUpdate(t, v) ==
   /\ extra = "mup" /\ Stable /\ txgate = "none" /\ NFaults = 0 /\ script = <<>>
   /\ MasterUpdate(t, v)
   /\ Step(<<"mupdate", t, v>>)
-  /\ UNCHANGED <<wgate, txgate, owedT, fgate, mgate, sgate, extra, shape>>
+  /\ UNCHANGED <<wgate, txgate, owedT, fgate, mgate, sgate, extra, lateMode, shape>>
 
 \* hold the 500 ms timer of the watcher: what follows the fault is processed within the grace period
 G_ArmF ==
@@ -142,62 +145,62 @@ G_ArmF ==
   /\ (extra = "owed" /\ txgate = "owed") \/ (extra = "stale" /\ script = <<>>)
   /\ fgate' = TRUE
   /\ Step(<<"armf">>)
-  /\ UNCHANGED vars /\ UNCHANGED <<wgate, txgate, owedT, mgate, sgate, extra, shape>>
+  /\ UNCHANGED vars /\ UNCHANGED <<wgate, txgate, owedT, mgate, sgate, extra, lateMode, shape>>
 
 G_ArmM ==
   /\ extra = "merge" /\ Stable /\ ~mgate /\ script = <<>>
   /\ mgate' = TRUE
   /\ Step(<<"armm">>)
-  /\ UNCHANGED vars /\ UNCHANGED <<wgate, txgate, owedT, fgate, sgate, extra, shape>>
+  /\ UNCHANGED vars /\ UNCHANGED <<wgate, txgate, owedT, fgate, sgate, extra, lateMode, shape>>
 
 G_ReleaseM ==
   /\ Stable /\ mgate /\ NFaults > 0
   /\ mgate' = FALSE
   /\ Step(<<"releasem">>)
-  /\ UNCHANGED vars /\ UNCHANGED <<wgate, txgate, owedT, fgate, sgate, extra, shape>>
+  /\ UNCHANGED vars /\ UNCHANGED <<wgate, txgate, owedT, fgate, sgate, extra, lateMode, shape>>
 
 G_ArmS ==
   /\ extra = "order" /\ Stable /\ ~sgate /\ script = <<>>
   /\ sgate' = TRUE
   /\ Step(<<"arms">>)
-  /\ UNCHANGED vars /\ UNCHANGED <<wgate, txgate, owedT, fgate, mgate, extra, shape>>
+  /\ UNCHANGED vars /\ UNCHANGED <<wgate, txgate, owedT, fgate, mgate, extra, lateMode, shape>>
 
 \* (the pipeline is stable: the status reaction has made the task INACTIVE)
 G_ReleaseS ==
   /\ Stable /\ sgate /\ NFaults > 0
   /\ sgate' = FALSE
   /\ Step(<<"releases">>)
-  /\ UNCHANGED vars /\ UNCHANGED <<wgate, txgate, owedT, fgate, mgate, extra, shape>>
+  /\ UNCHANGED vars /\ UNCHANGED <<wgate, txgate, owedT, fgate, mgate, extra, lateMode, shape>>
 
 G_ReleaseF ==
   /\ Stable /\ fgate /\ NFaults > 0
   /\ fgate' = FALSE
   /\ Step(<<"releasef">>)
-  /\ UNCHANGED vars /\ UNCHANGED <<wgate, txgate, owedT, mgate, sgate, extra, shape>>
+  /\ UNCHANGED vars /\ UNCHANGED <<wgate, txgate, owedT, mgate, sgate, extra, lateMode, shape>>
 
 \* arm the watcher gate while it waits at its select: it will park at its next receive
 G_ArmW ==
   /\ extra = "none" /\ Stable /\ ~wgate /\ wpc = "select" /\ NFaults = 0 /\ budget > 1
   /\ wgate' = TRUE
   /\ Step(<<"armw">>)
-  /\ UNCHANGED vars /\ UNCHANGED <<txgate, owedT, fgate, mgate, sgate, extra, shape>>
+  /\ UNCHANGED vars /\ UNCHANGED <<txgate, owedT, fgate, mgate, sgate, extra, lateMode, shape>>
 
 G_ReleaseW ==
   /\ Stable /\ wgate /\ NFaults > 0
   /\ wgate' = FALSE
   /\ Step(<<"releasew">>)
-  /\ UNCHANGED vars /\ UNCHANGED <<txgate, owedT, fgate, mgate, sgate, extra, shape>>
+  /\ UNCHANGED vars /\ UNCHANGED <<txgate, owedT, fgate, mgate, sgate, extra, lateMode, shape>>
 
 G_ReleaseTx ==
   /\ Stable /\ txgate \in {"early", "late"} /\ NFaults > 0
   /\ txgate' = "none"
   /\ Step(<<"releasetx">>)
-  /\ UNCHANGED vars /\ UNCHANGED <<wgate, owedT, fgate, mgate, sgate, extra, shape>>
+  /\ UNCHANGED vars /\ UNCHANGED <<wgate, owedT, fgate, mgate, sgate, extra, lateMode, shape>>
 
 GenInit ==
   /\ Init
   /\ wgate = (wpc \in {"unsub", "busy"})
-  /\ txgate = "none" /\ owedT = "none" /\ fgate = FALSE /\ mgate = FALSE /\ sgate = FALSE
+  /\ txgate = "none" /\ owedT = "none" /\ fgate = FALSE /\ mgate = FALSE /\ sgate = FALSE /\ lateMode = "ok"
   /\ extra \in Extras
   /\ (extra = "owed" => apiLeft > 0)
   /\ (extra \in {"mup", "stale", "merge", "order"} => wpc = "select")
@@ -211,7 +214,7 @@ GenNext ==
   \/ \E g \in {"early", "late"} : G_Api(g)
   \/ G_ArmW \/ G_ReleaseW \/ G_ReleaseTx
   \/ \E t \in Tasks : G_ApiOwed(t) \/ G_Stale(t) \/ G_MasterUpdate(t, "noexec") \/ G_MasterUpdate(t, "noids")
-  \/ G_LateReply \/ G_ArmF \/ G_ReleaseF \/ G_ArmM \/ G_ReleaseM \/ G_ArmS \/ G_ReleaseS
+  \/ G_LateReply("ok") \/ G_LateReply("error") \/ G_ArmF \/ G_ReleaseF \/ G_ArmM \/ G_ReleaseM \/ G_ArmS \/ G_ReleaseS
 
 GenSpec == GenInit /\ [][GenNext]_<<vars, gvars>>
 
